@@ -23,7 +23,7 @@ Not decided: byte-identity with an independent RFC encoder for whole messages, M
 corrupted byte (follows from the stream clause only under MD5's properties).
 """
 import itertools
-from rules import driver, core, absint, r_mpt, r_stride, r_path, r_endian
+from rules import driver, core, absint, r_mpt, r_stride, r_path, r_endian, r_bitlayout
 from rules.core import key, walk, strip_casts, const_val
 from props import common, fixtures
 
@@ -39,7 +39,7 @@ WIRE_REQUIRED = {"proto/dns.h": ["qd_count", "an_count", "ns_count", "ar_count",
 
 def specs():
     return [common.hdr_unit("proto/radius.h", "proto/radius.h"), common.hdr_unit("proto/dns.h", "proto/dns.h"),
-            common.src_unit("src/proto/radius_client.c"), common.src_unit("src/proto/dns_resolv.c")]
+            common.src_unit("src/proto/radius_client.c"), common.src_unit("src/proto/dns_resolv.c")] + r_bitlayout.units_for("proto/dns.h")[1:]
 
 
 # ------------------------------------------------------------------ R-PLEN
@@ -828,6 +828,8 @@ def run(rep, tier):
         raise driver.AnalysisBroken("radius constants not foldable: %s" % [k for k, v in consts.items() if v is None])
     npl = 0
     for lab, u in us.items():
+        if "[BYTE_ORDER" in lab:
+            continue
         own = ("include/" + lab, lab)
         npl += plen_rule(rep, u, [f for f in u.function_list if f.relfile() in own and f.has_cfg])
     rep.floor("constant-length pointer/object pairs", npl, 20)
@@ -835,6 +837,8 @@ def run(rep, tier):
     rep.floor("password hiding cases", hiding_rule(rep, ur), 12)
     rep.floor("builder arms", live_rule(rep, ur, consts), 5)
     rep.floor("DNS writer/reader pairs", dns_layout_rule(rep, ud), 2)
+    # the header flag words are bit-field records declared once per host byte order: both declarations name the same wire bits
+    rep.floor("DNS flag bit-fields (both byte orders)", r_bitlayout.check(rep, us, "proto/dns.h"), 13)
     radius_append_rule(rep, ur)
     counter_rule(rep, ud)
     rep.floor("DNS header accessors", accessor_siblings(rep, ud), 16)
@@ -853,6 +857,8 @@ def run(rep, tier):
             memsafe.stale_remaining_rule(rep, f_)
     nwf = nacc = 0
     for lab, u in us.items():
+        if "[BYTE_ORDER" in lab:
+            continue
         fns_ = [f for f in u.function_list if f.file.startswith(core.REPO + "/")]
         wf = r_endian.wire_fields(u, fns_)
         if lab in WIRE_REQUIRED:
